@@ -100,8 +100,14 @@ def configure(case, lk):
         # per-pipe payload modes: the transmitter's mode is that of its pipe 0, the receiver's that of the receiving
         # pipe; the other pipes are set differently
         mt, mr = case["dynmask"]
-        tx.dynamic_payloads = (mt & 0x3E) | int(dyn)
-        rx.dynamic_payloads = (mr & ~(1 << case["pipe"]) & 0x3F) | (int(dyn) << case["pipe"])
+        form = {"list": lambda m: [bool(m >> i & 1) for i in range(6)], "tuple": lambda m: tuple(bool(m >> i & 1) for i in range(6)),
+                "int": lambda m: m}[case.get("dynform", "int")]  # the documented forms of the same per-pipe setting
+        mt, mr = (mt & 0x3E) | int(dyn), (mr & ~(1 << case["pipe"]) & 0x3F) | (int(dyn) << case["pipe"])
+        if case.get("dynform", "int") != "int":
+            tx.dynamic_payloads = ~mt & 0x3F  # every pipe stood the other way before, so each element of the sequence matters
+            rx.dynamic_payloads = ~mr & 0x3F
+        tx.dynamic_payloads = form(mt)
+        rx.dynamic_payloads = form(mr)
     if case.get("ackmode"):
         # ACK payloads enabled on both ends AFTER the payload mode was chosen: pipe 0 becomes dynamic (documented)
         tx.ack = True
@@ -612,6 +618,7 @@ def strategy(drv="full", peer="full"):
             c["pre_side"] = draw(st.sampled_from(["both", "tx", "rx"]))
         if not lite and draw(st.integers(0, 3)) == 0:
             c["dynmask"] = [draw(st.integers(0, 0x3F)), draw(st.integers(0, 0x3F))]
+            c["dynform"] = draw(st.sampled_from(["int", "list", "tuple"]))
         if aa and "dynmask" not in c and draw(st.integers(0, 4)) == 0:
             c["ackmode"] = True
             c["pipe"] = 0
